@@ -6,9 +6,12 @@ IDS="$*"
 [ -n "$IDS" ] || IDS="C01 C02 C03 C04 C05 C06 C07 C08 C09 C10 C11 C12 C13 C14 C15 C16 C17 C18 C19 C20"
 if [ -n "$(git -C /repo status --porcelain --untracked-files=no)" ]; then echo "/repo is dirty"; exit 2; fi
 git -C /repo apply "$P" || { echo "APPLY-FAILED $P"; exit 2; }
+mkdir -p /verif/.cache
 for id in $IDS; do
+  [ -f /verif/evidence/$id.json ] && cp /verif/evidence/$id.json /verif/.cache/evidence-$id.saved
   out=$(/verif/check $id quick 2>&1 | grep -E "^(OK|VIOLATION|KNOWN-FINDING)" | tr '\n' ' ')
   echo "$id: $out"
+  [ -f /verif/.cache/evidence-$id.saved ] && mv /verif/.cache/evidence-$id.saved /verif/evidence/$id.json
 done
 git -C /repo checkout -- .
 python3 /verif/tools/regen.py >/dev/null 2>&1
